@@ -35,31 +35,31 @@ CHECKS = {
    "8 layouts (one area, adjacent, gap, near the top, ending exactly at 2^64, an empty area inside / at the start of a later area, an area at address 0; plus an overlapping layout that exists only where creation wrongly accepts it): transitions are API writes (9 lengths incl. area_len+1 and 2^32 served from a lazily mapped zero region), typed writes 8..128 and guest MOV stores at 14 edge addresses per area + extreme addresses; after every successful write the complete read battery (mem_read_bytes with 12 lengths up to 2^64-1, typed reads, guest MOV loads; at the first two levels also loads through MOVD, MOVQ, MOVUPS, MOVZX, MOVSXD, ADD, CMOVcc (taken and not taken: the load happens either way) and through CALL/JMP/PUSH [mem] with RSP inside an area: a failing load moves neither memory nor RSP) is compared with the model; rejected accesses must change nothing. Depth 2 (thorough 3).",
    "Zero-length accesses: only no-crash/no-change.", "4/C08"),
  "C09": (EN, "exhaustive enumeration of permission masks x access paths",
-   "All 8 permission masks x every access path: 12 API accessors (also from inside a native hook), the built-in read() handler copying into the area, 16-byte stores whose upper half lies in a neighbour of every mask, instruction fetch (at the start of an area, and of an instruction split between an executable area and a neighbour of every mask), every canonical memory-touching instruction form of the census (explicit operand and implicit stack access separately, required permission from iced OpAccess; flag-reading forms under both flag extremes; writing forms also in value states where the store writes back what is there), constructor and ELF segment configurations; denied => Err and memory unchanged, allowed => Ok.",
+   "All 8 permission masks x every access path: 12 API accessors (also from inside a native hook), the built-in read() handler copying into the area, 16-byte stores whose upper half lies in a neighbour of every mask, instruction fetch (at the start of an area, after a permission change between two fetches in the same area for all 64 mask pairs, and of an instruction split between an executable area and a neighbour of every mask), every canonical memory-touching instruction form of the census (explicit operand and implicit stack access separately, required permission from iced OpAccess; flag-reading forms under both flag extremes; writing forms also in value states where the store writes back what is there), constructor and ELF segment configurations; denied => Err and memory unchanged, allowed => Ok.",
    "Forms that fail even with full permissions are C06's; conditional accesses may go either way; a guest store is required to succeed only when the area is readable and writable (x86 has no write-only pages and the operand helpers read the destination first).", "4/C09"),
  "C10": (ST, "explicit-state search (stateright BFS over the live Axecutor) against an interval-set model, hang-supervised",
    "Depth 3 from 5 initial machines (code at 0x1000/0x3000/0x400000, generated ELF, ELF + init_stack_program_start) over mem_init_area/zero (7 starts x 7 lengths incl. overlaps of exactly one byte, and 5 requests on the last 32 bytes of the address space), 'anywhere' allocations, init_stack, mem_resize_section, mem_prot and brk as guest syscalls, against an interval-set model with contents; in every state: areas pairwise disjoint and the area list equals the model. A transition that hangs or kills the process is attributed by the supervisor, recorded, masked and the search restarted.",
    "Rejection of a non-overlapping explicit request is not flagged; zero-length areas cover no address.", "4/C10"),
  "C11": (EN, "exhaustive enumeration of short programs x limits x driver schedules; schedule differential + loop-control model",
-   "Every program of <= 4 (thorough 5) instructions over a 15-item alphabet (incl. a jump past the end of the code, `pop rax` and `push imm; ret`) x 6 instruction limits x {no stack, init_stack(0x100), init_stack(0x108)} x 3 hook configurations, also entered at the second instruction, driven by every schedule (steps only; k steps then execute() for every k): final fingerprint, result and error text must agree, and each run is stepped against a loop-control model built on an independent decode (count+1, fall-through, finish conditions, limit, steps and execute() after the end fail and change nothing); a second drive sets the limit after k executed instructions: it bounds the total.",
+   "Every program of <= 4 (thorough 5) instructions over a 15-item alphabet (incl. a jump past the end of the code, `pop rax` and `push imm; ret`) x 6 instruction limits x {no stack, init_stack(0x100), init_stack(0x108)} x 4 hook configurations (incl. an after-hook that sets the limit to 3 mid-run), also entered at the second instruction, driven by every schedule (steps only; k steps then execute() for every k): final fingerprint, result and error text must agree, and each run is stepped against a loop-control model built on an independent decode (count+1, fall-through, finish conditions, limit, steps and execute() after the end fail and change nothing); a second drive sets the limit after k executed instructions: it bounds the total.",
    "The state after a step that fails for another reason is compared only between schedules; unbounded loops are driven to a 96-step cap.", "4/C11"),
  "C12": (EN, "exhaustive enumeration of hook configurations, programs and follow-up calls against a log grammar",
-   "Every assignment of up to 3 (thorough 4) before-hooks and as many after-hooks with outcomes {Unhandled, Handled, Stop, Error, Mutate RBX, Register-from-inside, Redirect RIP} on `inc rcx`, a logging hook pair on `nop`, 5 programs (one ended by a top-level `ret` that has a hook pair of its own), 5 follow-up API calls; plus `syscall`, `int n`, `int1`, `int3` (instructions that work only when their mnemonic has hooks) x all 256 subsets of logging hooks on their four mnemonics; one instruction of each of the 65 supported mnemonics with a logging hook pair on every mnemonic (dispatch by name); the event log written by the instrumented native hooks is checked against an order-agnostic grammar (at most once, must-run, short-circuit, bracketing, foreign hooks, persistence, stop, error, registration whenever idle).",
+   "Every assignment of up to 3 (thorough 4) before-hooks and as many after-hooks with outcomes {Unhandled, Handled, Stop, Error, Mutate RBX, Register-from-inside, Redirect RIP} on `inc rcx`, a logging hook pair on `nop`, 5 programs (one ended by a top-level `ret` that has a hook pair of its own), 5 follow-up API calls; plus `syscall`, `int n`, `int1`, `int3` (instructions that work only when their mnemonic has hooks) x all 256 subsets of logging hooks on their four mnemonics; one instruction of each of the 65 supported mnemonics with a logging hook pair on every mnemonic (dispatch by name); hooks registered between steps (after 0..3 of 6 same-mnemonic instructions, before / after / both, on top of hooks present from the start) run from the next instruction on; the event log written by the instrumented native hooks is checked against an order-agnostic grammar (at most once, must-run, short-circuit, bracketing, foreign hooks, persistence, stop, error, registration whenever idle).",
    "Hook order is documented as undefined; after a Stop or a Handled in the other phase only 'at most once' is demanded of the other phase; a Stop ends its own phase.", "4/C12"),
  "C13": (ST, "explicit-state search (stateright BFS over the live Axecutor) against a heap model",
    "Depth 9 (thorough 11) over guest brk(p) for p in {0, H, H+1, H+0x10, H+0x1000, H+0x1001, H+0x2400, H+0x3000, K, below the base} and guest byte stores/loads at {H, H+1, K-1, middle} in 4 layouts (incl. an area just above the heap), and the host mapping an area above the break once the heap exists, against an (H, K, bytes) model; invariant: the heap never overlaps another area.",
    "brk below the base and accesses at/above the break: crash-freedom only; bytes released by a shrink are forgotten by the model.", "4/C13"),
  "C14": (ST, "explicit-state search (stateright BFS over the live Axecutor) against FIFO models",
-   "Depth 8 (thorough 10) over guest pipe()/write/read with <= 2 pipes, both ends of both pipes 4 non-pipe descriptors and 2 descriptors that equal a pipe end only in their low 32 bits, reads and writes on pipe ends with an unmapped buffer (the queue must survive a failing call), sizes {0,1,2,3,5} / {0,1,2,4,8}, descriptor numbers decided by the harness through the seam (distinct and forced-colliding), a user hook registered after the built-in handler; against a VecDeque per pipe: returned count, exact bytes in buf[..k], rest of the buffer untouched, independence of pipes, non-pipe descriptors reach the user hook.",
+   "Depth 8 (thorough 10) over guest pipe()/write/read with <= 2 pipes, both ends of both pipes 4 non-pipe descriptors and 2 descriptors that equal a pipe end only in their low 32 bits, reads and writes on pipe ends with an unmapped buffer (the queue must survive a failing call), sizes {0,1,2,3,5} / {0,1,2,4,8}, descriptor numbers decided by the harness through the seam (distinct and forced-colliding), a user hook registered after the built-in handler; a third machine with writes of 40 000 / 25 537 bytes and reads up to 100 000 bytes (all histories <= 4, whole buffers compared); against a VecDeque per pipe: returned count, exact bytes in buf[..k], rest of the buffer untouched, independence of pipes, non-pipe descriptors reach the user hook.",
    "Wrong-end operations may be refused but move no byte; descriptor collisions: crash-freedom only.", "4/C14"),
  "C15": (EN, "exhaustive enumeration of generated well-formed ELF files, compared with the generator's parameters",
-   "Every generated ET_EXEC file over: 1-3 (thorough: 4 over the boundary shapes) PT_LOAD in every program-header order on 4 page slots, in-page offsets {0,0x10,0xE10}, filesz {0,1,0x1F0,to page end,0x1000,0x2000}, bss tail {0,1,to page end,0x1800}, all 8 flag masks (rotating over the segment positions of multi-segment files), non-zero file bytes outside the segments, p_paddr = p_vaddr / 0 alternating, optional PT_PHDR/NOTE/GNU_STACK/GNU_RELRO (over the start of the last segment), 10 symbol-table variants, 2 entry positions (distinct-pages precondition enforced); the loaded image is compared with the writer's parameters: file bytes, zero fill to memsz, permissions, RIP, symbol resolution.",
-   "ET_EXEC with p_vaddr != 0 only; TLS/dynamic/executable-stack files belong to C16.", "4/C15"),
+   "Every generated ET_EXEC file over: 1-3 (thorough: 4 over the boundary shapes) PT_LOAD in every program-header order on 4 page slots, in-page offsets {0,0x10,0xE10}, filesz {0,1,0x1F0,to page end,0x1000,0x2000}, bss tail {0,1,to page end,0x1800}, all 8 flag masks (rotating over the segment positions of multi-segment files), non-zero file bytes outside the segments, p_paddr = p_vaddr / 0 alternating, optional PT_PHDR/NOTE/GNU_STACK/GNU_RELRO (over the start of the last segment), optional PT_TLS header with p_filesz < p_memsz over the start of the last segment, 10 symbol-table variants, 2 entry positions (distinct-pages precondition enforced); the loaded image is compared with the writer's parameters: file bytes, zero fill to memsz, permissions, RIP, symbol resolution.",
+   "ET_EXEC with p_vaddr != 0 only; dynamic/executable-stack files belong to C16; where FS points after a PT_TLS header is not checked.", "4/C15"),
  "C16": (EN, "exhaustive enumeration of bounded field deviations and truncations of ELF files in supervised workers",
    "9 seeds (3 bundled binaries, 6 generated incl. TLS, dynamic, RELRO, page-sized bss) x 0/1/2/3 header-field deviations over a 19-value boundary alphabet + type constants (all single fields; pairs inside one program header, of the same field in two program headers, in the e_ph* and e_sh* groups and the symtab/strtab headers - thorough: every pair of fields of the file; triples inside each of the first three program headers); the thorough tier repeats the quick enumeration on a build with debug assertions + every truncation length of the generated files and of the header regions of the bundled ones; 200 well-formed files with symbol names of every length around the powers of two up to 4096 in 1- to 4-byte characters at every alignment; each load runs in a worker with catch_unwind, a 1 GiB single-allocation guard, RLIMIT_AS and a hang watchdog: Ok or Err, nothing else.",
    "An allocation above 1 GiB for an input below 1 MiB counts as unrelated to the input size.", "4/C16"),
  "C17": (EN, "exhaustive enumeration of argv/envp/stack-size/layout configurations, frame read back by guest POPs",
-   "argc, envc in 0..=8 (thorough 12) x 10 rotations of the string shapes {empty,1,7,8,15,16,17,300 bytes, multi-byte UTF-8, 0x1001 bytes} x 8 stack sizes (0..0x2000 incl. odd) x 4 layouts, plus stacks of 1-4 MiB for small lists; the frame is read back by executing guest `pop rax` instructions and following the pointers; alignment, NUL termination, order, writability, pairwise disjointness of all areas, no collision with the image, space left below RSP >= requested size - 16.",
+   "argc, envc in 0..=8 (thorough 12) x 10 rotations of the string shapes {empty,1,7,8,15,16,17,300 bytes, multi-byte UTF-8, 0x1001 bytes} x 8 stack sizes (0..0x2000 incl. odd) x 4 layouts, plus stacks of 1-4 MiB for small lists, plus a first argument of 40 000 / 70 000 bytes followed by strings of 0..2 bytes; the frame is read back by executing guest `pop rax` instructions and following the pointers; alignment, NUL termination, order, writability, pairwise disjointness of all areas, no collision with the image, space left below RSP >= requested size - 16.",
    "The guest observes the frame through the emulator's own POP; contents of padding are not checked.", "4/C17"),
  "C18": (EN, "exhaustive enumeration of short control-flow programs against an independent tracer; renderers total",
    "Every one of the 34 conditional-jump forms x 64 flag states x 3 RCX values as a single-jump case, and every program of <= 5 (thorough 6) items over 16 control-flow items (quick: lengths 1-4 completely, length 5 as far as a 45 s cap allows - the evidence says `exhaustive: false` and names the index reached) (incl. jmp / call through a pointer slot in the code) (jumps, countdown loop, taken/untaken je, call, ret - transfers whose target is and is not the fall-through address -, push+ret = unmatched return, call/jmp through rax, int3, call/ret pair, one indirect jump taken twice with two targets, direct self-recursion, one ret executed twice with the same target) stepped under an instruction limit (programs shorter than the bound also on a 16-byte stack, where nested calls fault); after every step the structured trace and call stack are compared with an independent tracer (own decode, condition evaluation, run-length collapse, level bookkeeping) and trace()/call_stack()/to_string() are rendered under catch_unwind and an allocation guard.",
